@@ -58,6 +58,9 @@ func AddFileHelpers(f *value.FunctionGenerator) {
 							return nil, err
 						}
 						_, err = w.Write(f.Data)
+						if err != nil {
+							return nil, err
+						}
 					} else {
 						return nil, errors.New("zipFiles requires a list of files")
 					}
